@@ -18,7 +18,10 @@ def ref_apply(view, m):
             for c in (m.children or ()):
                 if c.name in v["elements"]:
                     if v["kind"] == "BLOB":
-                        v["elements"][c.name] = ("BLOB", base64.b64decode(c.value or ""), c.format)
+                        try:
+                            v["elements"][c.name] = ("BLOB", base64.b64decode(c.value or ""), c.format)
+                        except ValueError:
+                            pass          # an undecodable payload leaves the element as it was
                     else:
                         v["elements"][c.name] = c.value
     elif isinstance(m, M.DelProperty):
@@ -52,7 +55,7 @@ def client_step(w):
     from indi.device.snoop import SnoopingClient
     rnd = random.Random(w.get("seed", 0))
     kinds = ["Text", "Number", "Switch", "Light", "BLOB"]
-    vals = {"Text": ["a", "b", ""], "Number": ["1", "2.5"], "Switch": ["On", "Off"], "Light": ["Ok", "Busy"], "BLOB": ["YWJj", "", None]}
+    vals = {"Text": ["a", "b", ""], "Number": ["1", "2.5"], "Switch": ["On", "Off"], "Light": ["Ok", "Busy"], "BLOB": ["YWJj", "", None, "YWJ", "!!!", "eHl6"]}
     cases = 0
     for it in range(w.get("n", 200)):
         c = SnoopingClient(None)
@@ -76,8 +79,7 @@ def client_step(w):
                 def part(n):
                     v = rnd.choice(vals[k] if k not in ("Switch", "Light") else [x for x in vals[k]])
                     if k == "BLOB":
-                        import base64
-                        return OP.OneBLOB(name=n, value=v, size=str(len(base64.b64decode(v or ""))), format=".x")
+                        return OP.OneBLOB(name=n, value=v, size=rnd.choice(["3", "0", "99", "abc", ""]), format=rnd.choice([".x", ".fits.z"]))
                     return getattr(OP, "One" + k)(name=n, value=v)
                 m = getattr(M, "Set%sVector" % k)(device=dev, name=vec, state=rnd.choice(["Idle", "Ok", "Busy", "Alert"]), children=tuple(part(n) for n in names))
             elif r < 0.9:
@@ -118,7 +120,7 @@ def _random_message(rnd, kinds, vals):
         def part(n):
             v = rnd.choice(vals[k])
             if k == "BLOB":
-                return OP.OneBLOB(name=n, value=v, size=str(len(base64.b64decode(v or ""))), format=".x")
+                return OP.OneBLOB(name=n, value=v, size=rnd.choice(["3", "0", "7", "x"]), format=".x")
             return getattr(OP, "One" + k)(name=n, value=v)
         return getattr(M, "Set%sVector" % k)(device=dev, name=vec, state=rnd.choice(["Idle", "Ok", "Busy", "Alert"]), children=tuple(part(n) for n in names))
     if r < 0.93:
@@ -136,7 +138,7 @@ def client_events(w):
     from indi.device.snoop import SnoopingClient
     rnd = random.Random(w.get("seed", 0))
     kinds = ["Text", "Number", "Switch", "Light", "BLOB"]
-    vals = {"Text": ["a", "b", ""], "Number": ["1", "2.5"], "Switch": ["On", "Off"], "Light": ["Ok", "Busy"], "BLOB": ["YWJj", "", "eHl6"]}
+    vals = {"Text": ["a", "b", ""], "Number": ["1", "2.5"], "Switch": ["On", "Off"], "Light": ["Ok", "Busy"], "BLOB": ["YWJj", "", "eHl6", "YWJ"]}
     cases = 0
 
     def shown(v):
@@ -173,17 +175,24 @@ def client_events(w):
         # filtered callbacks
         regs = []
         for j in range(rnd.randint(0, 4)):
-            f = dict(device=rnd.choice([None, "A", "B", "Z"]), vector=rnd.choice([None, "P", "Q", "Z"]), element=rnd.choice([None, "x", "y", "Z"]),
-                     event_type=rnd.choice([EV.BaseEvent, EV.ValueUpdate, EV.StateUpdate, EV.DefinitionUpdate]))
+            f = dict(device=rnd.choice([None, None, None, "A", "B", "Z"]), vector=rnd.choice([None, None, None, "P", "Q", "Z"]),
+                     element=rnd.choice([None, None, None, "x", "y", "Z"]),
+                     event_type=rnd.choice([EV.BaseEvent, EV.BaseEvent, EV.ValueUpdate, EV.StateUpdate, EV.DefinitionUpdate]))
             got = []
             boom = rnd.random() < 0.3
+            oneshot = rnd.random() < 0.3          # removes itself while being dispatched to (a one-shot listener)
+            cell = {}
 
-            def cb(ev, got=got, boom=boom):
+            def cb(ev, got=got, boom=boom, oneshot=oneshot, cell=cell):
                 got.append(ev)
+                if oneshot and "done" not in cell:
+                    cell["done"] = True
+                    c.rmonevent(uuid=cell["uid"])
                 if boom:
                     raise RuntimeError("callback failure")
             uid = c.onevent(callback=cb, **f)
-            regs.append({"f": f, "got": got, "uid": uid, "active": True, "from": 0})
+            cell["uid"] = uid
+            regs.append({"f": f, "got": got, "uid": uid, "active": True, "from": 0, "oneshot": oneshot})
         for step in range(rnd.randint(1, 10)):
             m = _random_message(rnd, kinds, vals)
             mark = len(all_events)
@@ -207,6 +216,9 @@ def client_events(w):
                         return False
                     return True
                 want = [ev for ev in new if match(ev)] if r["active"] else []
+                if r["oneshot"] and r["active"] and want:
+                    want = want[:1]          # it removed itself on its first event
+                    r["active"] = False
                 got = r["got"][r["from"]:]
                 r["from"] = len(r["got"])
                 if [id(x) for x in got] != [id(x) for x in want]:
